@@ -309,3 +309,14 @@ def run(facts, rep, ctx):
     purity(facts, rep)
     po1(facts, rep)
     ts9(facts, rep)
+
+
+_run_before_round4 = run
+
+
+def run(facts, rep, ctx):
+    """rules added after the third seeding round (rules/round4.py)"""
+    _run_before_round4(facts, rep, ctx)
+    from . import round4
+    round4.tb13(facts, rep)
+
